@@ -235,6 +235,21 @@ theorem expt_ratio_negative_exact (cfg : Cfg) (hc : cfg.exptChecked = true) {a :
   | rat32 n d => exact expt_rat32_neg_checked cfg hc ha hr hr32
   | bigrat n d => exact expt_bigrat_neg cfg ha hr
 
+/-- ratio base, negative exponent, the code as it is (inside the `Ratio<i32>::pow` guard). -/
+theorem expt_ratio_negative_exact_partial (cfg : Cfg) {a : Num}
+    (ha : Canonical a) (hk : a.isInt = false) {r : Int} (hr : r < 0) (hr32 : fitsI32 r = true)
+    (hg : RatPowGuard a.toQ.1 a.toQ.2 r = true) :
+    Exact (expt cfg a (.fix r)) ((denote a ^ r.natAbs)⁻¹) := by
+  cases a with
+  | fix n => simp [Num.isInt] at hk
+  | big n => simp [Num.isInt] at hk
+  | rat32 n d => exact expt_rat32_neg_partial cfg ha hr hr32 hg
+  | bigrat n d => exact expt_bigrat_neg cfg ha hr
+
+/-- `0` to a positive bignum power is `0` (repaired code; the pinned code reports an error). -/
+theorem expt_zero_to_big (cfg : Cfg) (hc : cfg.exptChecked = true) {r : Int} (hr : 0 < r) :
+    expt cfg (.fix 0) (.big r) = .ok (.fix 0) := expt_zero_big_checked cfg hc hr
+
 theorem expt_zero_to_negative (cfg : Cfg) {r : Int} (hr : r < 0) :
     expt cfg (.fix 0) (.fix r) = .err .expt0 := expt_zero_neg cfg hr
 
